@@ -74,6 +74,22 @@ def _mentions(t, ci):
     return False
 
 
+def make_typeddict(name, fs, style):
+    """The same abstract TypedDict (fs = [(key, type, required)]) spelled in one of the three ways Python offers:
+    0: total + NotRequired[...];  1: total=False + Required[...];  2: a total=False subclass of a total base (only when
+    the required keys come first, so that declaration order is kept)."""
+    reqs = [r for _, _, r in fs]
+    if style == 2 and (sorted(reqs, reverse=True) != reqs or all(reqs) or not any(reqs)):
+        style = 0
+    if style == 0:
+        return TypedDict(name, {n: (t if r else NotRequired[t]) for n, t, r in fs})
+    if style == 1:
+        return TypedDict(name, {n: (Required[t] if r else t) for n, t, r in fs}, total=False)
+    base = TypedDict(name + "B", {n: t for n, t, r in fs if r})
+    return types.new_class(name, (base,), {"total": False},
+                           lambda ns: ns.update({"__annotations__": {n: t for n, t, r in fs if not r}}))
+
+
 class Realised:
     def __init__(self, world, kw_only_seed=None):
         self.world = world
@@ -123,20 +139,8 @@ class Realised:
         name = f"K{self.uid}_{ci}"
         kind = c["kind"]
         if kind == "td":
-            # the same abstract TypedDict is spelled in one of the three ways Python offers, chosen deterministically:
-            # total + NotRequired[...], total=False + Required[...], or a total=False subclass of a total base
             fs = [(f["name"], self.ty(f["ty"]) if f["ty"] is not None else Any, f.get("required", True)) for f in c["fields"]]
-            style = (self.uid + ci) % 3
-            reqs = [r for _, _, r in fs]
-            if style == 2 and (sorted(reqs, reverse=True) != reqs or all(reqs) or not any(reqs)):
-                style = 0  # inheritance keeps declaration order only when required keys come first
-            if style == 0:
-                return TypedDict(name, {n: (t if r else NotRequired[t]) for n, t, r in fs})
-            if style == 1:
-                return TypedDict(name, {n: (Required[t] if r else t) for n, t, r in fs}, total=False)
-            base = TypedDict(name + "B", {n: t for n, t, r in fs if r})
-            return types.new_class(name, (base,), {"total": False},
-                                   lambda ns: ns.update({"__annotations__": {n: t for n, t, r in fs if not r}}))
+            return make_typeddict(name, fs, (self.uid + ci) % 3)
         if kind == "attrs":
             flds = {}
             for f in c["fields"]:
@@ -152,7 +156,7 @@ class Realised:
                 if f.get("kw_only"):
                     kw["kw_only"] = True
                 if f["ty"] is not None:
-                    kw["type"] = self.ty(f["ty"])
+                    kw["type"] = Final if f.get("bare_final") else self.ty(f["ty"])
                 if f.get("idconv"):
                     kw["converter"] = _ident
                 flds[f["name"]] = attrs.field(**kw)
@@ -172,6 +176,8 @@ class Realised:
                 if f.get("kw_only"):
                     kw["kw_only"] = True
                 t = self.ty(f["ty"]) if f["ty"] is not None else Any
+                if f.get("bare_final"):
+                    t = Final
                 flds.append((f["name"], t, dataclasses.field(**kw)))
             return dataclasses.make_dataclass(name, flds, frozen=c["frozen"])
         raise ValueError(kind)
@@ -224,7 +230,10 @@ class Realised:
         if k == "mmap":
             return typing.MutableMapping[self.ty(t[1]), self.ty(t[2])]
         if k == "opt":
-            return Optional[self.ty(t[1])]
+            inner = self.ty(t[1])
+            if (self.uid + len(repr(t))) % 3 == 0:
+                return typing.Union[None, inner]  # None-first spelling of the same Optional
+            return Optional[inner]
         if k == "new":
             return NewType(f"NT{self.uid}_{len(self._ty_cache)}", self.ty(t[1]))
         if k == "ann":
